@@ -506,6 +506,15 @@ def run(ctx):
 _SRC = {}
 
 
+def _fails_exit(n_):
+    """a *failing* exit on every path: as diverges(), but a `return Ok(..)` inside does not count"""
+    if not diverges(n_):
+        return None
+    if any(x.get("k") == "ret" and re.match(r"\(?Ok\(|Result::Ok\(", hirq.render(x.get("e")) or "") for x in hirq.walk(n_)):
+        return None
+    return diverges(n_)
+
+
 def run_extra(ctx):
     """rules armed after run(): they need nothing from run()'s locals"""
     prog = ctx.prog
@@ -530,7 +539,7 @@ def run_extra(ctx):
                 try:
                     src = _SRC.setdefault(f.file, open(os.path.join(facts.REPO, f.file), encoding="utf-8").read().split("\n"))
                     seg = "\n".join(src[(c.get("ln") or 1) - 1:(c.get("ln") or 1) + 3])
-                    m_ = re.search(r"e?println!\s*\(\s*\"((?:[^\"\\\\]|\\\\.)*)\"", seg)
+                    m_ = re.search(r"e?println!\s*\(\s*\"((?:[^\"\\]|\\.)*)\"", seg)
                     if m_:
                         txt += m_.group(1).replace("\\n", "\n")
                 except OSError:
@@ -565,11 +574,12 @@ def run_extra(ctx):
             cond_names = {x["res"]["local"] for w_, cd in enclosing_if_conditions(body, c) for x in hirq.walk(cd) if x.get("k") == "path" and "local" in (x.get("res") or {})}
             derived = {nm for nm, init in lets.items() if any(x.get("k") == "path" and (x.get("res") or {}).get("local") in cond_names for x in hirq.walk(init))}
             fails = False
+
             for items, i in reversed(chain):
                 for st_ in items[i + 1:]:
-                    if diverges(st_):
+                    if _fails_exit(st_):
                         fails = True
-                    elif st_.get("k") == "if" and st_.get("else") is None and diverges(st_["then"]):
+                    elif st_.get("k") == "if" and st_.get("else") is None and _fails_exit(st_["then"]):
                         r_ = hirq.render(st_["c"])
                         names = {x["res"]["local"] for x in hirq.walk(st_["c"]) if x.get("k") == "path" and "local" in (x.get("res") or {})}
                         if r_ in conds or (names and names <= (derived | cond_names)):
@@ -578,7 +588,7 @@ def run_extra(ctx):
                         # `if C { fail } else { .. }` under the same C, or `if !C { .. } else { fail }` (the complement)
                         r_ = hirq.render(st_["c"])
                         comp = r_[1:] if r_.startswith("!") else "!" + r_
-                        if (r_ in conds and diverges(st_["then"])) or (comp in conds and diverges(st_["else"])):
+                        if (r_ in conds and _fails_exit(st_["then"])) or (comp in conds and _fails_exit(st_["else"])):
                             fails = True
                     if fails:
                         break
@@ -654,3 +664,51 @@ def run_extra(ctx):
         else:
             ctx.bad(R_pri, "%s|patch-priority" % f.path.split("::")[-1], "%s:%d" % (f.file, c.get("ln") or 0), "the base archive is added with priority %d, the patches with %s" % (b0, pr[:4]),
                     "a patch whose priority does not exceed the base's loses every file both hold (ties go to the archive added first): the command extracts un-patched content, reports success and exits 0")
+
+    # flat extraction (`file_name()` joined onto the output directory) maps different members to one path: the helper that builds such
+    # a path remembers what it handed out and refuses a second member for the same path — otherwise the later file silently replaces
+    # the earlier one and the command exits 0 with one member's content lost
+    R_flat = ctx.rule("C20.flat-output-paths-are-handed-out-once", "every commands/mpq.rs function that returns output_dir.join(<name>.file_name()) tests a set insertion of the path and fails when it was already present", floor=1)
+    from ..rules import ncallee as _nc2
+    from .. import mirg as _mg2
+    found_flat = 0
+    for f in cli.fn_list:
+        if f.kind == "Closure" or not f.hir or "::commands::mpq::" not in f.path or not f.mir.get("blocks"):
+            continue
+        calls = [(_nc2(t) or "") for _b, t in _mg2.iter_calls(f)]
+        if not (any(c_ == "std::path::Path::join" for c_ in calls) and any(c_ == "std::path::Path::file_name" for c_ in calls)):
+            continue
+        if "extract" in f.path.split("::")[-1] and not (cli.ty(f.d.get("output")) or "").count("PathBuf"):
+            # the extraction function itself joining a base name inline: same obligation
+            pass
+        elif not (cli.ty(f.d.get("output")) or "").count("PathBuf"):
+            continue
+        found_flat += 1
+        ctx.saw_fn(f)
+        ins = [n for n in hirq.find(f.hir["body"], "if") if re.search(r"\.insert\(", hirq.render(n["c"])) and (diverges(n["then"]) or (n.get("else") is not None and diverges(n["else"])))]
+        name = f.path.split("commands::")[-1]
+        if ins:
+            ctx.ok(R_flat, {"fn": name, "test": hirq.render(ins[0]["c"])[:60]})
+        else:
+            ctx.bad(R_flat, "%s|flat-path-not-remembered" % name, f.where, "%s joins a bare file name onto the output directory without recording the path it hands out" % name,
+                    "two members with the same base name (a\\x.txt, b\\x.txt) are written to one file: the second overwrites the first, nothing is counted as failed and the command exits 0")
+    # bulk operations take their work list from the member-aware listfile reader: a name that uses listfile comment syntax ('#..', 'a;b')
+    # is a member like any other
+    R_lf = ctx.rule("C20.work-lists-come-from-the-member-aware-listfile-reader", "no function of commands/mpq.rs that reads \"(listfile)\" parses it with the plain parse_listfile (which drops '#' lines and cuts names at ';')", floor=1)
+    for f in cli.fn_list:
+        if f.kind == "Closure" or not f.hir or "::commands::mpq::" not in f.path:
+            continue
+        body = f.hir["body"]
+        reads = any(c.get("k") == "mcall" and c["m"] == "read_file" and c.get("args") and hirq.lit_str(hirq.strip(c["args"][0])) == "(listfile)" for c in hirq.walk(body))
+        if not reads:
+            continue
+        ctx.saw_fn(f)
+        plain = [c for c in hirq.calls(body) if re.search(r"special_files::(listfile::)?parse_listfile$", c.get("fn") or "")]
+        aware = [c for c in hirq.calls(body) if re.search(r"parse_listfile_with$", c.get("fn") or "")]
+        name = f.path.split("commands::")[-1]
+        writes = any(c.get("k") == "call" and re.search(r"fs::write$|File::create$", c.get("fn") or "") for c in hirq.walk(body)) or "extract" in name
+        if plain and writes:
+            ctx.bad(R_lf, "%s|plain-listfile-parser" % name, "%s:%d" % (f.file, plain[0].get("ln") or 0), "%s builds its work list with parse_listfile" % name,
+                    "members named like `#top.txt` or `semi;colon.txt` are dropped from the work list (or looked up under a cut name): they are not extracted and the command still exits 0")
+        elif aware or plain:
+            ctx.ok(R_lf, {"fn": name, "parser": "parse_listfile_with" if aware else "parse_listfile (display only)"})
